@@ -1,10 +1,1519 @@
-//! C18 — not built yet.
-use crate::{sx::Sx, Emitter};
+//! C18 — typed event (de)serialization: dispatch by `type`, redaction detection, generic
+//! accessors (compared with the Coq model), and — as a failing-input search on the
+//! implementation only — the content clause: serialize typed content -> deserialize is a
+//! fixpoint, no duplicate keys, no present value changed, key order irrelevant, unknown fields
+//! accepted; `Raw` keeps the text byte for byte and `get_field` agrees with a full parse.
+//!
+//! Cases
+//!   ( N0 S<target> <event: json> N<shaped> N<perm> )   deserialize into the target enum
+//!        -> ( group variant redacted type [sender] [event_id] [ts] [room_id] [state_key] order_ok )
+//!   ( N1 S<kind> S<type> <content: json> <hard: json> N<perm> )   Any<kind>EventContent::from_parts + to_string
+//!        -> ( accepted fixpoint no_dup_keys preserved order_ok )
+//!   ( N2 S<text> S<field> )   Raw::from_json_string / json / get_field
+//!        -> ( S<json text> field_agrees deserialize_agrees )
+//!   ( N3 S<target> S<text> )  robustness: any text into the target enum; only a panic is an outcome
+//! `shaped` = 1: the event is built from the specification's schema (must deserialize).
+//! `hard` = the members of `content` whose values must survive the round trip (optional members
+//! holding their default, `null`, and unknown extra members are not in it).
+use ruma_common::{
+    canonical_json::redact_content_in_place, room_version_rules::RedactionRules, serde::Raw, CanonicalJsonValue,
+};
+use ruma_events::{
+    AnyEphemeralRoomEvent, AnyEphemeralRoomEventContent, AnyGlobalAccountDataEvent, AnyGlobalAccountDataEventContent,
+    AnyInitialStateEvent, AnyMessageLikeEvent, AnyMessageLikeEventContent, AnyRoomAccountDataEvent,
+    AnyRoomAccountDataEventContent, AnyStateEvent, AnyStateEventContent, AnyStrippedStateEvent, AnySyncEphemeralRoomEvent,
+    AnySyncMessageLikeEvent, AnySyncStateEvent, AnySyncTimelineEvent, AnyTimelineEvent, AnyToDeviceEvent,
+    AnyToDeviceEventContent, EventContentFromType,
+};
+use serde_json::{json, value::RawValue, Map, Value};
 
-pub fn run(_tier: &str, _seed: u64, _em: &mut Emitter) {}
+use crate::{
+    rng::Rng,
+    sx::{guarded, json_to_sx, sx_to_json, Sx},
+    Emitter,
+};
 
-pub fn replay(_case: &Sx) -> Option<Sx> {
+// ---------------------------------------------------------------------------------------------
+// JSON helpers: text with a chosen key order, duplicate-key scan, "hard" subset
+// ---------------------------------------------------------------------------------------------
+fn write_json(v: &Value, perm: u64, out: &mut String) {
+    match v {
+        Value::Object(m) => {
+            let mut keys: Vec<&String> = m.keys().collect();
+            match perm % 4 {
+                0 => {}
+                1 => keys.reverse(),
+                _ => {
+                    let mut r = Rng::new(perm ^ (m.len() as u64) << 7);
+                    for i in (1..keys.len()).rev() {
+                        let j = r.below(i + 1);
+                        keys.swap(i, j);
+                    }
+                }
+            }
+            out.push('{');
+            for (i, k) in keys.iter().enumerate() {
+                if i > 0 {
+                    out.push(',');
+                }
+                out.push_str(&serde_json::to_string(k).unwrap());
+                out.push(':');
+                write_json(&m[*k], perm.wrapping_mul(31).wrapping_add(i as u64), out);
+            }
+            out.push('}');
+        }
+        Value::Array(a) => {
+            out.push('[');
+            for (i, x) in a.iter().enumerate() {
+                if i > 0 {
+                    out.push(',');
+                }
+                write_json(x, perm.wrapping_mul(17).wrapping_add(i as u64), out);
+            }
+            out.push(']');
+        }
+        other => out.push_str(&serde_json::to_string(other).unwrap()),
+    }
+}
+
+/// insignificant whitespace around the structural characters (outside strings)
+fn spaced(text: &str) -> String {
+    let (mut out, mut in_str, mut esc) = (String::new(), false, false);
+    for c in text.chars() {
+        if in_str {
+            out.push(c);
+            if esc {
+                esc = false;
+            } else if c == '\\' {
+                esc = true;
+            } else if c == '"' {
+                in_str = false;
+            }
+        } else {
+            match c {
+                '"' => {
+                    in_str = true;
+                    out.push(c);
+                }
+                ':' => out.push_str(" : "),
+                ',' => out.push_str(" ,\t"),
+                '{' | '[' => {
+                    out.push(c);
+                    out.push_str("\n  ");
+                }
+                '}' | ']' => {
+                    out.push_str("\r\n");
+                    out.push(c);
+                }
+                _ => out.push(c),
+            }
+        }
+    }
+    out
+}
+
+fn text_of(v: &Value, perm: u64) -> String {
+    let mut s = String::new();
+    write_json(v, perm, &mut s);
+    s
+}
+
+/// Does the JSON text contain an object with a repeated key?  (serde_json::Value would hide it.)
+fn has_duplicate_keys(text: &str) -> bool {
+    use serde::de::{DeserializeSeed, Deserializer, MapAccess, SeqAccess, Visitor};
+    struct Dup<'a>(&'a mut bool);
+    impl<'de> DeserializeSeed<'de> for Dup<'_> {
+        type Value = ();
+        fn deserialize<D: Deserializer<'de>>(self, d: D) -> Result<(), D::Error> {
+            d.deserialize_any(self)
+        }
+    }
+    impl<'de> Visitor<'de> for Dup<'_> {
+        type Value = ();
+        fn expecting(&self, f: &mut std::fmt::Formatter<'_>) -> std::fmt::Result {
+            f.write_str("json")
+        }
+        fn visit_bool<E>(self, _: bool) -> Result<(), E> {
+            Ok(())
+        }
+        fn visit_i64<E>(self, _: i64) -> Result<(), E> {
+            Ok(())
+        }
+        fn visit_u64<E>(self, _: u64) -> Result<(), E> {
+            Ok(())
+        }
+        fn visit_f64<E>(self, _: f64) -> Result<(), E> {
+            Ok(())
+        }
+        fn visit_str<E>(self, _: &str) -> Result<(), E> {
+            Ok(())
+        }
+        fn visit_unit<E>(self) -> Result<(), E> {
+            Ok(())
+        }
+        fn visit_seq<A: SeqAccess<'de>>(self, mut a: A) -> Result<(), A::Error> {
+            while a.next_element_seed(Dup(&mut *self.0))?.is_some() {}
+            Ok(())
+        }
+        fn visit_map<A: MapAccess<'de>>(self, mut a: A) -> Result<(), A::Error> {
+            let mut seen = std::collections::BTreeSet::new();
+            while let Some(k) = a.next_key::<String>()? {
+                if !seen.insert(k) {
+                    *self.0 = true;
+                }
+                a.next_value_seed(Dup(&mut *self.0))?;
+            }
+            Ok(())
+        }
+    }
+    let mut dup = false;
+    let mut de = serde_json::Deserializer::from_str(text);
+    let _ = Dup(&mut dup).deserialize(&mut de);
+    dup
+}
+
+/// every member of `hard` is in `out` with the same value (objects recursively, arrays elementwise)
+fn contains(out: &Value, hard: &Value) -> bool {
+    match (out, hard) {
+        (Value::Object(o), Value::Object(h)) => h.iter().all(|(k, hv)| o.get(k).is_some_and(|ov| contains(ov, hv))),
+        (Value::Array(o), Value::Array(h)) => o.len() == h.len() && o.iter().zip(h).all(|(a, b)| contains(a, b)),
+        (a, b) => a == b,
+    }
+}
+
+fn to_canonical(v: &Value) -> Option<CanonicalJsonValue> {
+    CanonicalJsonValue::try_from(v.clone()).ok()
+}
+
+fn canonical_to_value(v: &CanonicalJsonValue) -> Value {
+    serde_json::to_value(v).unwrap()
+}
+
+// ---------------------------------------------------------------------------------------------
+// Observations of the typed events
+// ---------------------------------------------------------------------------------------------
+#[derive(Default, PartialEq, Clone)]
+struct Obs {
+    group: String,
+    variant: String,
+    redacted: i128,
+    ty: String,
+    sender: Option<String>,
+    event_id: Option<String>,
+    ts: Option<i128>,
+    room_id: Option<String>,
+    state_key: Option<String>,
+}
+
+impl Obs {
+    fn to_sx(&self, order_ok: bool) -> Sx {
+        let os = |x: &Option<String>| Sx::opt(x.as_deref().map(Sx::s));
+        Sx::ok(Sx::L(vec![
+            Sx::s(&self.group),
+            Sx::s(&self.variant),
+            Sx::N(self.redacted),
+            Sx::s(&self.ty),
+            os(&self.sender),
+            os(&self.event_id),
+            Sx::opt(self.ts.map(Sx::N)),
+            os(&self.room_id),
+            os(&self.state_key),
+            Sx::b(order_ok),
+        ]))
+    }
+}
+
+/// `RoomMessage(Original(OriginalMessageLikeEvent { ..` -> ["RoomMessage", "Original", ..]
+fn debug_path(dbg: &str, n: usize) -> Vec<String> {
+    let mut out = vec![];
+    let mut cur = String::new();
+    for c in dbg.chars() {
+        if c.is_alphanumeric() || c == '_' {
+            cur.push(c);
+        } else if c == '(' {
+            out.push(std::mem::take(&mut cur));
+            if out.len() == n {
+                break;
+            }
+        } else {
+            break;
+        }
+    }
+    out
+}
+
+fn ms(ts: ruma_common::MilliSecondsSinceUnixEpoch) -> i128 {
+    u64::from(ts.0) as i128
+}
+
+macro_rules! obs_room {
+    // message-like / state enums with a redacted form
+    ($ev:expr, $group:expr, room_id: $rid:expr, state_key: $sk:expr) => {{
+        let ev = $ev;
+        let path = debug_path(&format!("{ev:?}"), 2);
+        Obs {
+            group: $group.to_owned(),
+            variant: path.first().cloned().unwrap_or_default(),
+            redacted: match path.get(1).map(String::as_str) {
+                Some("Original") => 0,
+                Some("Redacted") => 1,
+                _ => 9,
+            } + if (path.get(1).map(String::as_str) == Some("Redacted")) != ev.is_redacted() { 100 } else { 0 },
+            ty: ev.event_type().to_string(),
+            sender: Some(ev.sender().to_string()),
+            event_id: Some(ev.event_id().to_string()),
+            ts: Some(ms(ev.origin_server_ts())),
+            room_id: $rid(ev),
+            state_key: $sk(ev),
+        }
+    }};
+}
+
+fn none<T>(_: &T) -> Option<String> {
     None
+}
+
+fn observe(target: &str, text: &str) -> Result<Obs, ()> {
+    fn de<'a, T: serde::Deserialize<'a>>(t: &'a str) -> Result<T, ()> {
+        serde_json::from_str::<T>(t).map_err(|_| ())
+    }
+    Ok(match target {
+        "AnyTimelineEvent" => {
+            let ev: AnyTimelineEvent = de(text)?;
+            let mut o = match &ev {
+                AnyTimelineEvent::MessageLike(e) => {
+                    obs_room!(e, "MessageLike", room_id: |e: &AnyMessageLikeEvent| Some(e.room_id().to_string()), state_key: none)
+                }
+                AnyTimelineEvent::State(e) => obs_room!(e, "State", room_id: |e: &AnyStateEvent| Some(e.room_id().to_string()),
+                    state_key: |e: &AnyStateEvent| Some(e.state_key().to_owned())),
+            };
+            // the timeline enum's own accessors must agree with the inner event's
+            if ev.event_type().to_string() != o.ty
+                || Some(ev.sender().to_string()) != o.sender
+                || Some(ev.event_id().to_string()) != o.event_id
+                || Some(ms(ev.origin_server_ts())) != o.ts
+                || Some(ev.room_id().to_string()) != o.room_id
+            {
+                o.variant.push_str("!accessor-mismatch");
+            }
+            o
+        }
+        "AnySyncTimelineEvent" => {
+            let ev: AnySyncTimelineEvent = de(text)?;
+            let mut o = match &ev {
+                AnySyncTimelineEvent::MessageLike(e) => obs_room!(e, "MessageLike", room_id: none, state_key: none),
+                AnySyncTimelineEvent::State(e) => {
+                    obs_room!(e, "State", room_id: none, state_key: |e: &AnySyncStateEvent| Some(e.state_key().to_owned()))
+                }
+            };
+            if ev.event_type().to_string() != o.ty
+                || Some(ev.sender().to_string()) != o.sender
+                || Some(ev.event_id().to_string()) != o.event_id
+                || Some(ms(ev.origin_server_ts())) != o.ts
+            {
+                o.variant.push_str("!accessor-mismatch");
+            }
+            o
+        }
+        "AnyMessageLikeEvent" => {
+            let ev: AnyMessageLikeEvent = de(text)?;
+            obs_room!(&ev, "", room_id: |e: &AnyMessageLikeEvent| Some(e.room_id().to_string()), state_key: none)
+        }
+        "AnySyncMessageLikeEvent" => {
+            let ev: AnySyncMessageLikeEvent = de(text)?;
+            obs_room!(&ev, "", room_id: none, state_key: none)
+        }
+        "AnyStateEvent" => {
+            let ev: AnyStateEvent = de(text)?;
+            obs_room!(&ev, "", room_id: |e: &AnyStateEvent| Some(e.room_id().to_string()),
+                state_key: |e: &AnyStateEvent| Some(e.state_key().to_owned()))
+        }
+        "AnySyncStateEvent" => {
+            let ev: AnySyncStateEvent = de(text)?;
+            obs_room!(&ev, "", room_id: none, state_key: |e: &AnySyncStateEvent| Some(e.state_key().to_owned()))
+        }
+        "AnyStrippedStateEvent" => {
+            let ev: AnyStrippedStateEvent = de(text)?;
+            Obs {
+                variant: debug_path(&format!("{ev:?}"), 1).pop().unwrap_or_default(),
+                redacted: 2,
+                ty: ev.event_type().to_string(),
+                sender: Some(ev.sender().to_string()),
+                state_key: Some(ev.state_key().to_owned()),
+                ..Default::default()
+            }
+        }
+        "AnyInitialStateEvent" => {
+            let ev: AnyInitialStateEvent = de(text)?;
+            Obs {
+                variant: debug_path(&format!("{ev:?}"), 1).pop().unwrap_or_default(),
+                redacted: 2,
+                ty: ev.event_type().to_string(),
+                state_key: Some(ev.state_key().to_owned()),
+                ..Default::default()
+            }
+        }
+        "AnyToDeviceEvent" => {
+            let ev: AnyToDeviceEvent = de(text)?;
+            Obs {
+                variant: debug_path(&format!("{ev:?}"), 1).pop().unwrap_or_default(),
+                redacted: 2,
+                ty: ev.event_type().to_string(),
+                sender: Some(ev.sender().to_string()),
+                ..Default::default()
+            }
+        }
+        "AnyEphemeralRoomEvent" => {
+            let ev: AnyEphemeralRoomEvent = de(text)?;
+            Obs {
+                variant: debug_path(&format!("{ev:?}"), 1).pop().unwrap_or_default(),
+                redacted: 2,
+                ty: ev.event_type().to_string(),
+                room_id: Some(ev.room_id().to_string()),
+                ..Default::default()
+            }
+        }
+        "AnySyncEphemeralRoomEvent" => {
+            let ev: AnySyncEphemeralRoomEvent = de(text)?;
+            Obs {
+                variant: debug_path(&format!("{ev:?}"), 1).pop().unwrap_or_default(),
+                redacted: 2,
+                ty: ev.event_type().to_string(),
+                ..Default::default()
+            }
+        }
+        "AnyGlobalAccountDataEvent" => {
+            let ev: AnyGlobalAccountDataEvent = de(text)?;
+            Obs {
+                variant: debug_path(&format!("{ev:?}"), 1).pop().unwrap_or_default(),
+                redacted: 2,
+                ty: ev.event_type().to_string(),
+                ..Default::default()
+            }
+        }
+        "AnyRoomAccountDataEvent" => {
+            let ev: AnyRoomAccountDataEvent = de(text)?;
+            Obs {
+                variant: debug_path(&format!("{ev:?}"), 1).pop().unwrap_or_default(),
+                redacted: 2,
+                ty: ev.event_type().to_string(),
+                ..Default::default()
+            }
+        }
+        _ => return Err(()),
+    })
+}
+
+fn run_event(target: &str, ev: &Value, perm: u64) -> Sx {
+    let base = observe(target, &text_of(ev, 0));
+    // the same event with its keys in two other orders
+    let order_ok = [perm | 1, perm.wrapping_mul(3) | 2].iter().all(|p| observe(target, &text_of(ev, *p)) == base);
+    match base {
+        Ok(o) => o.to_sx(order_ok),
+        Err(()) => {
+            if order_ok {
+                Sx::err(0)
+            } else {
+                Sx::err(1)
+            }
+        }
+    }
+}
+
+// ---------------------------------------------------------------------------------------------
+// Content round trip
+// ---------------------------------------------------------------------------------------------
+fn content_roundtrip<C: EventContentFromType + serde::Serialize>(ty: &str, content: &Value, hard: &Value, perm: u64) -> Sx {
+    let flags = |a: bool, b: bool, c: bool, d: bool, e: bool| Sx::ok(Sx::L(vec![Sx::b(a), Sx::b(b), Sx::b(c), Sx::b(d), Sx::b(e)]));
+    let parse = |text: &str| -> Option<String> {
+        let raw = RawValue::from_string(text.to_owned()).ok()?;
+        let c = C::from_parts(ty, &raw).ok()?;
+        serde_json::to_string(&c).ok()
+    };
+    let Some(s1) = parse(&text_of(content, 0)) else { return flags(false, true, true, true, true) };
+    let s2 = parse(&s1);
+    let fix = s2.as_deref() == Some(s1.as_str());
+    let nodup = !has_duplicate_keys(&s1);
+    let preserved = serde_json::from_str::<Value>(&s1).is_ok_and(|out| contains(&out, hard));
+    let order = [perm | 1, perm.wrapping_mul(3) | 2].iter().all(|p| parse(&text_of(content, *p)).as_deref() == Some(s1.as_str()));
+    flags(true, fix, nodup, preserved, order)
+}
+
+fn run_content(kind: &str, ty: &str, content: &Value, hard: &Value, perm: u64) -> Sx {
+    match kind {
+        "MessageLike" => content_roundtrip::<AnyMessageLikeEventContent>(ty, content, hard, perm),
+        "State" => content_roundtrip::<AnyStateEventContent>(ty, content, hard, perm),
+        "ToDevice" => content_roundtrip::<AnyToDeviceEventContent>(ty, content, hard, perm),
+        "EphemeralRoom" => content_roundtrip::<AnyEphemeralRoomEventContent>(ty, content, hard, perm),
+        "GlobalAccountData" => content_roundtrip::<AnyGlobalAccountDataEventContent>(ty, content, hard, perm),
+        "RoomAccountData" => content_roundtrip::<AnyRoomAccountDataEventContent>(ty, content, hard, perm),
+        _ => Sx::err(9),
+    }
+}
+
+// ---------------------------------------------------------------------------------------------
+// Raw
+// ---------------------------------------------------------------------------------------------
+fn run_raw(text: &str, field: &str) -> Sx {
+    let Ok(raw) = Raw::<Value>::from_json_string(text.to_owned()) else { return Sx::err(0) };
+    let stored = raw.json().get().to_owned();
+    // get_field against a full parse (last duplicate wins in both)
+    let full: Option<Value> = serde_json::from_str::<Value>(text).ok();
+    let expect = full.as_ref().and_then(|v| v.as_object()).and_then(|o| o.get(field)).cloned();
+    let field_ok = match (full.as_ref().map(|v| v.is_object()), raw.get_field::<Value>(field)) {
+        (Some(true), Ok(got)) => got == expect,
+        (Some(false), Err(_)) => true, // not an object: get_field errors
+        _ => false,
+    };
+    let de_ok = raw.deserialize().ok() == full;
+    Sx::ok(Sx::L(vec![Sx::s(&stored), Sx::b(field_ok), Sx::b(de_ok)]))
+}
+
+fn run_robust(target: &str, text: &str) -> Sx {
+    let _ = observe(target, text);
+    Sx::ok(Sx::L(vec![]))
+}
+
+// ---------------------------------------------------------------------------------------------
+// Generators: event contents from the specification's schemas
+// ---------------------------------------------------------------------------------------------
+/// A content under construction: `full` is what is sent, `hard` the members that must survive.
+#[derive(Clone, Default)]
+struct B {
+    full: Map<String, Value>,
+    hard: Map<String, Value>,
+}
+
+impl B {
+    fn new() -> B {
+        B::default()
+    }
+    /// a member whose value must be preserved
+    fn req(mut self, k: &str, v: Value) -> B {
+        self.full.insert(k.to_owned(), v.clone());
+        self.hard.insert(k.to_owned(), v);
+        self
+    }
+    /// a member that may legitimately be dropped or normalised (default value, null)
+    fn soft(mut self, k: &str, v: Value) -> B {
+        self.full.insert(k.to_owned(), v);
+        self
+    }
+    fn opt(self, r: &mut Rng, k: &str, v: impl FnOnce(&mut Rng) -> Value) -> B {
+        if r.chance(1, 2) {
+            let v = v(r);
+            self.req(k, v)
+        } else {
+            self
+        }
+    }
+    fn nest(mut self, k: &str, b: B) -> B {
+        self.full.insert(k.to_owned(), Value::Object(b.full));
+        if !b.hard.is_empty() {
+            // (an object whose members are all optional and absent may itself be dropped)
+            self.hard.insert(k.to_owned(), Value::Object(b.hard));
+        }
+        self
+    }
+    fn opt_nest(self, r: &mut Rng, k: &str, b: impl FnOnce(&mut Rng) -> B) -> B {
+        if r.chance(1, 2) {
+            let b = b(r);
+            self.nest(k, b)
+        } else {
+            self
+        }
+    }
+    /// unknown extra members (never in `hard`)
+    fn extras(mut self, r: &mut Rng) -> B {
+        if r.chance(1, 2) {
+            for _ in 0..1 + r.below(2) {
+                let k = *r.pick(&["x.unknown.field", "org.example.extra", "zz_unknown", "X-Unknown"]);
+                let v = match r.below(5) {
+                    0 => json!(null),
+                    1 => json!(r.below(1000) as i64),
+                    2 => json!("extra"),
+                    3 => json!({"nested": [1, "two", {"three": 3}]}),
+                    _ => json!([true, false]),
+                };
+                self.full.insert(k.to_owned(), v);
+            }
+        }
+        self
+    }
+}
+
+const USERS: &[&str] = &["@alice:example.org", "@bob:matrix.org", "@carol:sub.example.com:8448", "@_bridge_x:example.org"];
+const ROOMS: &[&str] = &["!room:example.org", "!abcDEF123:matrix.org"];
+const EVENTS: &[&str] = &["$event:example.org", "$Rqnc-F-dvnEYJTyHq_iKxU2bZ1CI92-kuZq3a5lr5Zg", "$abc123def456:matrix.org"];
+const SERVERS: &[&str] = &["example.org", "matrix.org", "sub.example.com:8448"];
+const ALIASES: &[&str] = &["#room:example.org", "#other:matrix.org"];
+const MXCS: &[&str] = &["mxc://example.org/abcDEF123", "mxc://matrix.org/xyz"];
+const TEXTS: &[&str] = &["hello", "", "with \"quotes\" and \\ backslash", "\u{e9}\u{1F600} unicode", "line\nbreak", "<b>html</b>"];
+const B64: &[&str] = &["AAAAAAAAAAAAAAAAAAAAAAAAAAAAAAAAAAAAAAAAAAA", "c2lnbmF0dXJl", "LRZiOWZV0k/6jQwdlTRw0hFTcNIGY+MZ0KymVvCJoWA"];
+
+fn p(r: &mut Rng, xs: &[&str]) -> Value {
+    json!(*r.pick(xs))
+}
+fn int(r: &mut Rng, lo: i64, hi: i64) -> Value {
+    let edge = [lo, hi, 0.clamp(lo, hi), 1.clamp(lo, hi), 50.clamp(lo, hi), 100.clamp(lo, hi)];
+    if r.chance(1, 2) {
+        json!(*r.pick(&edge))
+    } else {
+        json!(lo + (r.next() % ((hi - lo) as u64 + 1)) as i64)
+    }
+}
+const MAXI: i64 = 9007199254740991;
+
+fn image_info(r: &mut Rng) -> B {
+    B::new()
+        .opt(r, "h", |r| int(r, 0, 4096))
+        .opt(r, "w", |r| int(r, 0, 4096))
+        .opt(r, "mimetype", |r| p(r, &["image/png", "image/jpeg"]))
+        .opt(r, "size", |r| int(r, 0, 1 << 30))
+        .opt(r, "thumbnail_url", |r| p(r, MXCS))
+        .opt_nest(r, "thumbnail_info", |r| {
+            B::new().opt(r, "h", |r| int(r, 0, 600)).opt(r, "w", |r| int(r, 0, 800)).opt(r, "mimetype", |r| p(r, &["image/png"])).opt(r, "size", |r| int(r, 0, 99999))
+        })
+        .extras(r)
+}
+
+fn relates_to(r: &mut Rng) -> B {
+    match r.below(4) {
+        0 => B::new().nest("m.in_reply_to", B::new().req("event_id", p(r, EVENTS))),
+        1 => {
+            let b = B::new().req("rel_type", json!("m.thread")).req("event_id", p(r, EVENTS));
+            if r.chance(1, 2) {
+                b.nest("m.in_reply_to", B::new().req("event_id", p(r, EVENTS))).req("is_falling_back", json!(true))
+            } else {
+                b
+            }
+        }
+        2 => B::new().req("rel_type", json!("m.reference")).req("event_id", p(r, EVENTS)),
+        _ => B::new().req("rel_type", json!("org.example.custom_relation")).req("event_id", p(r, EVENTS)).req("key", json!("x")),
+    }
+}
+
+fn mentions(r: &mut Rng) -> B {
+    B::new().opt(r, "user_ids", |r| json!([*r.pick(USERS)])).opt(r, "room", |_| json!(true))
+}
+
+fn message_body(r: &mut Rng, msgtype: &str) -> B {
+    let b = B::new().req("msgtype", json!(msgtype)).req("body", p(r, TEXTS));
+    match msgtype {
+        "m.text" | "m.notice" | "m.emote" => {
+            if r.chance(1, 2) {
+                b.req("format", json!("org.matrix.custom.html")).req("formatted_body", p(r, TEXTS))
+            } else {
+                b
+            }
+        }
+        "m.image" => b.req("url", p(r, MXCS)).opt_nest(r, "info", image_info),
+        "m.file" => b
+            .req("url", p(r, MXCS))
+            .opt(r, "filename", |r| p(r, &["a.txt", "report.pdf"]))
+            .opt_nest(r, "info", |r| B::new().opt(r, "mimetype", |r| p(r, &["text/plain"])).opt(r, "size", |r| int(r, 0, 1 << 20))),
+        "m.audio" => b.req("url", p(r, MXCS)).opt_nest(r, "info", |r| {
+            B::new().opt(r, "duration", |r| int(r, 0, 600000)).opt(r, "mimetype", |r| p(r, &["audio/ogg"])).opt(r, "size", |r| int(r, 0, 1 << 20))
+        }),
+        "m.video" => b.req("url", p(r, MXCS)).opt_nest(r, "info", |r| {
+            B::new()
+                .opt(r, "duration", |r| int(r, 0, 600000))
+                .opt(r, "h", |r| int(r, 0, 2160))
+                .opt(r, "w", |r| int(r, 0, 3840))
+                .opt(r, "mimetype", |r| p(r, &["video/mp4"]))
+                .opt(r, "size", |r| int(r, 0, 1 << 30))
+        }),
+        "m.location" => b.req("geo_uri", json!("geo:51.5008,0.1247")).opt_nest(r, "info", |r| B::new().opt(r, "thumbnail_url", |r| p(r, MXCS))),
+        "m.server_notice" => b
+            .req("server_notice_type", p(r, &["m.server_notice.usage_limit_reached", "org.example.notice"]))
+            .opt(r, "admin_contact", |_| json!("mailto:admin@example.org"))
+            .opt(r, "limit_type", |r| p(r, &["monthly_active_user", "org.example.limit"])),
+        "m.key.verification.request" => b
+            .req("methods", json!(["m.sas.v1"]))
+            .req("from_device", json!("ABCDEFG"))
+            .req("to", p(r, USERS)),
+        _ => b.req("org.example.custom_field", json!({"a": [1, 2, 3]})),
+    }
+}
+
+fn room_message(r: &mut Rng) -> B {
+    let msgtype = *r.pick(&[
+        "m.text", "m.text", "m.notice", "m.emote", "m.image", "m.file", "m.audio", "m.video", "m.location", "m.server_notice",
+        "m.key.verification.request", "org.example.custom",
+    ]);
+    let mut b = message_body(r, msgtype);
+    match r.below(6) {
+        0 | 1 => b = b.nest("m.relates_to", relates_to(r)),
+        2 => {
+            // an edit: m.replace + m.new_content
+            let mt = *r.pick(&["m.text", "m.notice", "org.example.custom"]);
+            let nc = message_body(r, mt);
+            b = b.nest("m.relates_to", B::new().req("rel_type", json!("m.replace")).req("event_id", p(r, EVENTS))).nest("m.new_content", nc);
+        }
+        _ => {}
+    }
+    if r.chance(1, 4) {
+        b = b.nest("m.mentions", mentions(r));
+    }
+    b.extras(r)
+}
+
+fn encrypted(r: &mut Rng, to_device: bool) -> B {
+    if to_device || r.chance(1, 4) {
+        let mut ct = Map::new();
+        ct.insert((*r.pick(B64)).to_owned(), json!({"body": *r.pick(B64), "type": r.below(2) as i64}));
+        B::new().req("algorithm", json!("m.olm.v1.curve25519-aes-sha2")).req("sender_key", p(r, B64)).req("ciphertext", Value::Object(ct))
+    } else {
+        let b = B::new()
+            .req("algorithm", json!("m.megolm.v1.aes-sha2"))
+            .req("ciphertext", p(r, B64))
+            .req("session_id", p(r, B64))
+            .req("sender_key", p(r, B64))
+            .req("device_id", json!("DEVICEID"));
+        if r.chance(1, 3) {
+            b.nest("m.relates_to", relates_to(r))
+        } else {
+            b
+        }
+    }
+    .extras(r)
+}
+
+fn call_version(r: &mut Rng) -> Value {
+    match r.below(3) {
+        0 => json!(0),
+        1 => json!("1"),
+        _ => json!("org.example.voip"),
+    }
+}
+
+fn verification_relation(r: &mut Rng) -> B {
+    B::new().req("rel_type", json!("m.reference")).req("event_id", p(r, EVENTS))
+}
+
+/// key verification contents; `to_device`: `transaction_id` instead of `m.relates_to`
+fn verification(r: &mut Rng, step: &str, to_device: bool) -> B {
+    let b = match step {
+        "request" => B::new()
+            .req("from_device", json!("ABCDEFG"))
+            .req("methods", json!(["m.sas.v1", "m.qr_code.show.v1", "org.example.method"]))
+            .req("timestamp", int(r, 0, MAXI)),
+        "ready" => B::new().req("from_device", json!("ABCDEFG")).req("methods", json!(["m.sas.v1", "m.reciprocate.v1"])),
+        "start" => {
+            if r.chance(2, 3) {
+                B::new()
+                    .req("from_device", json!("ABCDEFG"))
+                    .req("method", json!("m.sas.v1"))
+                    .req("key_agreement_protocols", json!(["curve25519-hkdf-sha256", "curve25519"]))
+                    .req("hashes", json!(["sha256"]))
+                    .req("message_authentication_codes", json!(["hkdf-hmac-sha256.v2", "hkdf-hmac-sha256"]))
+                    .req("short_authentication_string", json!(["decimal", "emoji"]))
+            } else {
+                B::new().req("from_device", json!("ABCDEFG")).req("method", json!("m.reciprocate.v1")).req("secret", p(r, B64))
+            }
+        }
+        "accept" => B::new()
+            .req("method", json!("m.sas.v1"))
+            .req("key_agreement_protocol", json!("curve25519-hkdf-sha256"))
+            .req("hash", json!("sha256"))
+            .req("message_authentication_code", json!("hkdf-hmac-sha256.v2"))
+            .req("short_authentication_string", json!(["decimal"]))
+            .req("commitment", p(r, B64)),
+        "key" => B::new().req("key", p(r, B64)),
+        "mac" => {
+            let mut m = Map::new();
+            m.insert("ed25519:ABCDEFG".to_owned(), p(r, B64));
+            B::new().req("mac", Value::Object(m)).req("keys", p(r, B64))
+        }
+        "done" => B::new(),
+        _ => B::new().req("code", p(r, &["m.user", "m.timeout", "m.mismatched_sas", "org.example.code"])).req("reason", p(r, TEXTS)),
+    };
+    let b = if to_device { b.req("transaction_id", json!("txn1234")) } else { b.nest("m.relates_to", verification_relation(r)) };
+    b.extras(r)
+}
+
+fn power_levels(r: &mut Rng) -> B {
+    let mut b = B::new();
+    // (member, default): a member holding its default may be dropped when serializing
+    for (k, dflt) in [("ban", 50), ("events_default", 0), ("invite", 0), ("kick", 50), ("redact", 50), ("state_default", 50), ("users_default", 0)] {
+        if r.chance(1, 2) {
+            let v = int(r, -100, 100);
+            b = if v == json!(dflt) { b.soft(k, v) } else { b.req(k, v) };
+        }
+    }
+    for (k, names) in [("events", &["m.room.name", "m.room.power_levels", "m.room.message", "org.example.custom", "m.reaction"][..]), ("users", USERS)] {
+        if r.chance(1, 2) {
+            let mut m = Map::new();
+            for t in names {
+                if r.chance(1, 2) {
+                    m.insert((*t).to_owned(), int(r, -10, 100));
+                }
+            }
+            // an empty map is the default
+            b = if m.is_empty() { b.soft(k, Value::Object(m)) } else { b.req(k, Value::Object(m)) };
+        }
+    }
+    b.opt_nest(r, "notifications", |r| {
+        let v = int(r, 0, 100);
+        if v == json!(50) { B::new().soft("room", v) } else if r.chance(1, 4) { B::new() } else { B::new().req("room", v) }
+    })
+    .extras(r)
+}
+
+fn push_rule(r: &mut Rng, kind: &str) -> Value {
+    let mut rule = json!({
+        "rule_id": match kind { "room" => ROOMS[0], "sender" => USERS[0], _ => ".org.example.rule" },
+        "default": r.chance(1, 2),
+        "enabled": r.chance(1, 2),
+        "actions": match r.below(3) { 0 => json!(["notify"]), 1 => json!(["notify", {"set_tweak": "sound", "value": "default"}, {"set_tweak": "highlight"}]), _ => json!([]) },
+    });
+    if kind == "content" {
+        rule["pattern"] = json!("al*ce");
+    }
+    if kind == "override" || kind == "underride" {
+        rule["conditions"] = match r.below(4) {
+            0 => json!([]),
+            1 => json!([{"kind": "event_match", "key": "type", "pattern": "m.room.member"}]),
+            2 => json!([{"kind": "contains_display_name"}, {"kind": "room_member_count", "is": "2"}]),
+            _ => json!([{"kind": "sender_notification_permission", "key": "room"}, {"kind": "org.example.custom_condition", "x": 1}]),
+        };
+    }
+    rule
+}
+
+/// One event content for (kind, type): returns the content, and the state key / type to use.
+struct Gen {
+    ty: String,
+    b: B,
+    state_key: Option<String>,
+}
+
+fn gen_state(r: &mut Rng) -> Gen {
+    let ty = *r.pick(&[
+        "m.room.create", "m.room.member", "m.room.member", "m.room.name", "m.room.topic", "m.room.avatar", "m.room.canonical_alias",
+        "m.room.join_rules", "m.room.join_rules", "m.room.power_levels", "m.room.history_visibility", "m.room.guest_access",
+        "m.room.encryption", "m.room.pinned_events", "m.room.server_acl", "m.room.tombstone", "m.room.third_party_invite",
+        "m.room.aliases", "m.space.child", "m.space.parent", "m.policy.rule.user", "m.policy.rule.room", "m.policy.rule.server",
+    ]);
+    let mut sk = String::new();
+    let b = match ty {
+        "m.room.create" => {
+            let mut b = B::new();
+            if r.chance(2, 3) {
+                b = b.req("creator", p(r, USERS));
+            }
+            match r.below(3) {
+                0 => b = b.req("m.federate", json!(false)),
+                1 => b = b.soft("m.federate", json!(true)),
+                _ => {}
+            }
+            b.opt(r, "room_version", |r| p(r, &["1", "6", "9", "10", "11", "org.example.version"]))
+                .opt_nest(r, "predecessor", |r| B::new().req("room_id", p(r, ROOMS)).req("event_id", p(r, EVENTS)))
+                .opt(r, "type", |r| p(r, &["m.space", "org.example.room_type"]))
+        }
+        "m.room.member" => {
+            sk = (*r.pick(USERS)).to_owned();
+            let mut b = B::new().req("membership", p(r, &["join", "leave", "invite", "ban", "knock"]));
+            match r.below(3) {
+                0 => b = b.req("displayname", p(r, TEXTS)),
+                1 => b = b.soft("displayname", json!(null)),
+                _ => {}
+            }
+            match r.below(3) {
+                0 => b = b.req("avatar_url", p(r, MXCS)),
+                1 => b = b.soft("avatar_url", json!(null)),
+                _ => {}
+            }
+            b.opt(r, "is_direct", |r| json!(r.chance(1, 2)))
+                .opt(r, "reason", |r| p(r, TEXTS))
+                .opt(r, "join_authorised_via_users_server", |r| p(r, USERS))
+                .opt_nest(r, "third_party_invite", |r| {
+                    let mut sigs = Map::new();
+                    sigs.insert("example.org".to_owned(), json!({"ed25519:0": *r.pick(B64)}));
+                    B::new().req("display_name", json!("alice")).nest(
+                        "signed",
+                        B::new().req("mxid", p(r, USERS)).req("token", json!("abc123")).req("signatures", Value::Object(sigs)),
+                    )
+                })
+        }
+        "m.room.name" => B::new().req("name", p(r, TEXTS)),
+        "m.room.topic" => B::new().req("topic", p(r, TEXTS)),
+        "m.room.avatar" => B::new().opt(r, "url", |r| p(r, MXCS)).opt_nest(r, "info", image_info),
+        "m.room.canonical_alias" => {
+            let mut b = B::new();
+            match r.below(3) {
+                0 => b = b.req("alias", p(r, ALIASES)),
+                1 => b = b.soft("alias", json!(null)),
+                _ => {}
+            }
+            match r.below(3) {
+                0 => b = b.req("alt_aliases", json!([ALIASES[0], ALIASES[1]])),
+                1 => b = b.soft("alt_aliases", json!([])),
+                _ => {}
+            }
+            b
+        }
+        "m.room.join_rules" => {
+            let rule = *r.pick(&["public", "invite", "knock", "private", "restricted", "knock_restricted"]);
+            let b = B::new().req("join_rule", json!(rule));
+            if rule == "restricted" || rule == "knock_restricted" {
+                match r.below(3) {
+                    0 => b.req("allow", json!([{"type": "m.room_membership", "room_id": ROOMS[0]}])),
+                    1 => b.req("allow", json!([{"type": "m.room_membership", "room_id": ROOMS[1]}, {"type": "org.example.allow", "x": 1}])),
+                    _ => b.soft("allow", json!([])),
+                }
+            } else if rule == "org.example.rule" {
+                b.req("org.example.data", json!({"k": "v"}))
+            } else {
+                b
+            }
+        }
+        "m.room.power_levels" => power_levels(r),
+        "m.room.history_visibility" => B::new().req("history_visibility", p(r, &["invited", "joined", "shared", "world_readable", "org.example.v"])),
+        "m.room.guest_access" => B::new().req("guest_access", p(r, &["can_join", "forbidden", "org.example.g"])),
+        "m.room.encryption" => B::new()
+            .req("algorithm", p(r, &["m.megolm.v1.aes-sha2", "org.example.alg"]))
+            .opt(r, "rotation_period_ms", |r| int(r, 0, MAXI))
+            .opt(r, "rotation_period_msgs", |r| int(r, 0, MAXI)),
+        "m.room.pinned_events" => B::new().req("pinned", json!([EVENTS[0], EVENTS[1]])),
+        "m.room.server_acl" => {
+            let mut b = B::new().req("allow", json!(["*"])).req("deny", json!(["*.evil.com", "evil.com"]));
+            match r.below(3) {
+                0 => b = b.req("allow_ip_literals", json!(false)),
+                1 => b = b.soft("allow_ip_literals", json!(true)),
+                _ => {}
+            }
+            b
+        }
+        "m.room.tombstone" => B::new().req("body", p(r, TEXTS)).req("replacement_room", p(r, ROOMS)),
+        "m.room.third_party_invite" => {
+            sk = "pc98token".to_owned();
+            B::new()
+                .req("display_name", json!("Alice Margatroid"))
+                .req("key_validity_url", json!("https://magic.forest/verifykey"))
+                .req("public_key", p(r, B64))
+                .opt(r, "public_keys", |r| json!([{"public_key": *r.pick(B64), "key_validity_url": "https://magic.forest/verifykey"}, {"public_key": *r.pick(B64)}]))
+        }
+        "m.room.aliases" => {
+            sk = (*r.pick(SERVERS)).to_owned();
+            B::new().req("aliases", json!([ALIASES[0]]))
+        }
+        "m.space.child" => {
+            sk = (*r.pick(ROOMS)).to_owned();
+            B::new().req("via", json!([SERVERS[0], SERVERS[1]])).opt(r, "order", |_| json!("lexicographically_compare_me")).opt(r, "suggested", |_| json!(true))
+        }
+        "m.space.parent" => {
+            sk = (*r.pick(ROOMS)).to_owned();
+            B::new().req("via", json!([SERVERS[0]])).opt(r, "canonical", |_| json!(true))
+        }
+        _ => {
+            sk = "rule:@evil*:example.org".to_owned();
+            B::new().req("entity", json!("@evil*:example.org")).req("reason", p(r, TEXTS)).req("recommendation", p(r, &["m.ban", "org.example.rec"]))
+        }
+    };
+    Gen { ty: ty.to_owned(), b: b.extras(r), state_key: Some(sk) }
+}
+
+fn gen_message_like(r: &mut Rng) -> Gen {
+    let ty = *r.pick(&[
+        "m.room.message", "m.room.message", "m.room.message", "m.room.message", "m.room.redaction", "m.reaction", "m.sticker",
+        "m.room.encrypted", "m.call.invite", "m.call.answer", "m.call.hangup", "m.call.candidates", "m.call.select_answer",
+        "m.call.reject", "m.call.negotiate", "m.call.sdp_stream_metadata_changed", "org.matrix.call.sdp_stream_metadata_changed",
+        "m.key.verification.ready", "m.key.verification.start", "m.key.verification.accept", "m.key.verification.key",
+        "m.key.verification.mac", "m.key.verification.done", "m.key.verification.cancel",
+    ]);
+    let b = match ty {
+        "m.room.message" => room_message(r),
+        "m.room.redaction" => B::new().opt(r, "reason", |r| p(r, TEXTS)).req("redacts", p(r, EVENTS)).extras(r),
+        "m.reaction" => B::new().nest("m.relates_to", B::new().req("rel_type", json!("m.annotation")).req("event_id", p(r, EVENTS)).req("key", p(r, &["\u{1F44D}", "+1", ""]))).extras(r),
+        "m.sticker" => B::new().req("body", p(r, TEXTS)).req("url", p(r, MXCS)).nest("info", image_info(r)).extras(r),
+        "m.room.encrypted" => encrypted(r, false),
+        "m.call.invite" => B::new()
+            .req("call_id", json!("c1591052749788"))
+            .req("version", call_version(r))
+            .req("lifetime", int(r, 0, 600000))
+            .nest("offer", B::new().req("type", json!("offer")).req("sdp", json!("v=0\r\no=- 6584580628695956864 2 IN IP4 127.0.0.1")))
+            .opt(r, "party_id", |_| json!("party1"))
+            .opt(r, "invitee", |r| p(r, USERS))
+            .extras(r),
+        "m.call.answer" => B::new()
+            .req("call_id", json!("c1"))
+            .req("version", call_version(r))
+            .nest("answer", B::new().req("type", json!("answer")).req("sdp", json!("v=0")))
+            .opt(r, "party_id", |_| json!("party2"))
+            .extras(r),
+        "m.call.hangup" => B::new()
+            .req("call_id", json!("c1"))
+            .req("version", call_version(r))
+            .opt(r, "party_id", |_| json!("party2"))
+            .opt(r, "reason", |r| p(r, &["ice_failed", "invite_timeout", "user_hangup", "user_media_failed", "user_busy", "unknown_error", "org.example.reason"]))
+            .extras(r),
+        "m.call.candidates" => B::new()
+            .req("call_id", json!("c1"))
+            .req("version", call_version(r))
+            .opt(r, "party_id", |_| json!("party2"))
+            .req("candidates", json!([{"candidate": "candidate:863018703 1 udp 2122260223 10.9.64.156 43670 typ host generation 0", "sdpMid": "audio", "sdpMLineIndex": 0}, {"candidate": ""}]))
+            .extras(r),
+        "m.call.select_answer" => B::new().req("call_id", json!("c1")).req("version", call_version(r)).req("party_id", json!("p")).req("selected_party_id", json!("q")).extras(r),
+        "m.call.reject" => B::new().req("call_id", json!("c1")).req("version", call_version(r)).req("party_id", json!("p")).extras(r),
+        "m.call.negotiate" => B::new()
+            .req("call_id", json!("c1"))
+            .req("party_id", json!("p"))
+            .req("lifetime", int(r, 0, 600000))
+            .req("version", call_version(r))
+            .nest("description", B::new().req("type", p(r, &["offer", "answer"])).req("sdp", json!("v=0")))
+            .extras(r),
+        "m.call.sdp_stream_metadata_changed" | "org.matrix.call.sdp_stream_metadata_changed" => B::new()
+            .req("call_id", json!("c1"))
+            .req("party_id", json!("p"))
+            .req("version", call_version(r))
+            .nest("sdp_stream_metadata", B::new().nest("streamid1", B::new().req("purpose", p(r, &["m.usermedia", "m.screenshare", "org.example.purpose"])).req("audio_muted", json!(true)).soft("video_muted", json!(false))))
+            .extras(r),
+        other => verification(r, other.rsplit('.').next().unwrap(), false),
+    };
+    Gen { ty: ty.to_owned(), b, state_key: None }
+}
+
+fn gen_to_device(r: &mut Rng) -> Gen {
+    let ty = *r.pick(&[
+        "m.dummy", "m.room_key", "m.room_key_request", "m.forwarded_room_key", "m.key.verification.request", "m.key.verification.ready",
+        "m.key.verification.start", "m.key.verification.accept", "m.key.verification.key", "m.key.verification.mac",
+        "m.key.verification.done", "m.key.verification.cancel", "m.room.encrypted", "m.secret.request", "m.secret.send",
+    ]);
+    let b = match ty {
+        "m.dummy" => B::new().extras(r),
+        "m.room_key" => B::new()
+            .req("algorithm", json!("m.megolm.v1.aes-sha2"))
+            .req("room_id", p(r, ROOMS))
+            .req("session_id", p(r, B64))
+            .req("session_key", p(r, B64))
+            .extras(r),
+        "m.room_key_request" => {
+            let b = B::new().req("request_id", json!("1495474790150.19")).req("requesting_device_id", json!("RJYKSTBOIE"));
+            if r.chance(2, 3) {
+                b.req("action", json!("request")).nest(
+                    "body",
+                    B::new()
+                        .req("algorithm", json!("m.megolm.v1.aes-sha2"))
+                        .req("room_id", p(r, ROOMS))
+                        .req("session_id", p(r, B64))
+                        .req("sender_key", p(r, B64)),
+                )
+            } else {
+                b.req("action", json!("request_cancellation"))
+            }
+            .extras(r)
+        }
+        "m.forwarded_room_key" => B::new()
+            .req("algorithm", json!("m.megolm.v1.aes-sha2"))
+            .req("room_id", p(r, ROOMS))
+            .req("sender_key", p(r, B64))
+            .req("session_id", p(r, B64))
+            .req("session_key", p(r, B64))
+            .req("sender_claimed_ed25519_key", p(r, B64))
+            .req("forwarding_curve25519_key_chain", json!([B64[0]]))
+            .extras(r),
+        "m.room.encrypted" => encrypted(r, true),
+        "m.secret.request" => {
+            let b = B::new().req("requesting_device_id", json!("ABCDEFG")).req("request_id", json!("randomly_generated_id_9573"));
+            if r.chance(2, 3) {
+                b.req("action", json!("request")).req("name", p(r, &["m.cross_signing.master", "m.cross_signing.self_signing", "m.cross_signing.user_signing", "m.megolm_backup.v1", "org.example.secret"]))
+            } else {
+                b.req("action", json!("request_cancellation"))
+            }
+            .extras(r)
+        }
+        "m.secret.send" => B::new().req("request_id", json!("randomly_generated_id_9573")).req("secret", p(r, B64)).extras(r),
+        other => verification(r, other.rsplit('.').next().unwrap(), true),
+    };
+    Gen { ty: ty.to_owned(), b, state_key: None }
+}
+
+fn gen_ephemeral(r: &mut Rng) -> Gen {
+    if r.chance(1, 2) {
+        Gen { ty: "m.typing".to_owned(), b: B::new().req("user_ids", json!([USERS[0], USERS[1]])).extras(r), state_key: None }
+    } else {
+        let mut content = Map::new();
+        for ev in EVENTS.iter().take(1 + r.below(2)) {
+            let mut per_type = Map::new();
+            for rt in ["m.read", "m.read.private", "org.example.receipt"] {
+                if r.chance(1, 2) {
+                    let mut users = Map::new();
+                    for u in USERS.iter().take(1 + r.below(2)) {
+                        users.insert(
+                            (*u).to_owned(),
+                            match r.below(3) {
+                                0 => json!({"ts": 1436451550453i64}),
+                                1 => json!({"ts": 1436451550453i64, "thread_id": "main"}),
+                                _ => json!({"ts": 1436451550453i64, "thread_id": EVENTS[0]}),
+                            },
+                        );
+                    }
+                    per_type.insert(rt.to_owned(), Value::Object(users));
+                }
+            }
+            content.insert((*ev).to_owned(), Value::Object(per_type));
+        }
+        Gen { ty: "m.receipt".to_owned(), b: B { full: content.clone(), hard: content }, state_key: None }
+    }
+}
+
+fn gen_global_account(r: &mut Rng) -> Gen {
+    let ty = *r.pick(&["m.direct", "m.ignored_user_list", "m.push_rules", "m.identity_server", "m.secret_storage.default_key", "m.secret_storage.key.abcdefg", "m.secret_storage.key."]);
+    let b = match ty {
+        "m.direct" => {
+            let mut m = Map::new();
+            m.insert(USERS[0].to_owned(), json!([ROOMS[0], ROOMS[1]]));
+            m.insert(USERS[1].to_owned(), json!([]));
+            B { full: m.clone(), hard: m }
+        }
+        "m.ignored_user_list" => {
+            let mut m = Map::new();
+            m.insert(USERS[0].to_owned(), json!({}));
+            B::new().req("ignored_users", Value::Object(m)).extras(r)
+        }
+        "m.push_rules" => {
+            let mut g = Map::new();
+            for kind in ["override", "content", "room", "sender", "underride"] {
+                if r.chance(2, 3) {
+                    g.insert(kind.to_owned(), json!([push_rule(r, kind)]));
+                }
+            }
+            B::new().req("global", Value::Object(g)).extras(r)
+        }
+        "m.identity_server" => match r.below(2) {
+            0 => B::new().req("base_url", json!("https://example.org")).extras(r),
+            _ => B::new().soft("base_url", json!(null)).extras(r),
+        },
+        "m.secret_storage.default_key" => B::new().req("key", json!("abcdefg")).extras(r),
+        _ => B::new()
+            .req("algorithm", json!("m.secret_storage.v1.aes-hmac-sha2"))
+            .opt(r, "name", |_| json!("m.default"))
+            .opt(r, "iv", |r| p(r, B64))
+            .opt(r, "mac", |r| p(r, B64))
+            .opt_nest(r, "passphrase", |r| {
+                B::new().req("algorithm", json!("m.pbkdf2")).req("salt", json!("MmMsAlty")).req("iterations", int(r, 1, 500000)).opt(r, "bits", |_| json!(512))
+            }),
+    };
+    Gen { ty: ty.to_owned(), b, state_key: None }
+}
+
+fn gen_room_account(r: &mut Rng) -> Gen {
+    let ty = *r.pick(&["m.fully_read", "m.tag", "m.marked_unread"]);
+    let b = match ty {
+        "m.fully_read" => B::new().req("event_id", p(r, EVENTS)).extras(r),
+        "m.tag" => B::new().req("tags", json!({"m.favourite": {}, "u.work": {}, "m.lowpriority": {}, "m.server_notice": {}})).extras(r),
+        _ => B::new().req("unread", json!(r.chance(1, 2))).extras(r),
+    };
+    Gen { ty: ty.to_owned(), b, state_key: None }
+}
+
+fn gen_unknown(r: &mut Rng) -> (String, Value) {
+    let ty = *r.pick(&[
+        "org.example.custom", "m.room.unknown_type", "m.room.messag", "m.room.message.extra", "M.ROOM.MESSAGE", "m.room.member ", "",
+        "m", "m.secret_storage.key", "m.secret_storage.keyx", "io.ruma.\u{e9}\u{1F600}", "m.call", "m.key.verification.unknown", "m.direct.x",
+    ]);
+    let content = match r.below(4) {
+        0 => json!({}),
+        1 => json!({"anything": ["goes", 1, null, {"deep": {"er": true}}]}),
+        2 => json!({"body": "looks like a message", "msgtype": "m.text"}),
+        _ => json!({"membership": 5}),
+    };
+    (ty.to_owned(), content)
+}
+
+// ---------------------------------------------------------------------------------------------
+// Envelopes
+// ---------------------------------------------------------------------------------------------
+const RULES: &[(&str, RedactionRules)] = &[
+    ("1", RedactionRules::V1), ("6", RedactionRules::V6), ("8", RedactionRules::V8), ("9", RedactionRules::V9), ("11", RedactionRules::V11),
+];
+
+fn redaction_event(r: &mut Rng, sync: bool) -> Value {
+    let mut ev = json!({
+        "type": "m.room.redaction",
+        "content": {},
+        "event_id": *r.pick(EVENTS),
+        "sender": *r.pick(USERS),
+        "origin_server_ts": int(r, 0, MAXI),
+    });
+    match r.below(3) {
+        0 => ev["redacts"] = json!(EVENTS[0]),
+        1 => ev["content"] = json!({"redacts": EVENTS[0], "reason": "spam"}),
+        _ => {
+            ev["redacts"] = json!(EVENTS[0]);
+            ev["content"] = json!({"reason": "spam"});
+        }
+    }
+    if !sync {
+        ev["room_id"] = json!(ROOMS[0]);
+    }
+    if r.chance(1, 3) {
+        ev["unsigned"] = json!({"age": 1257});
+    }
+    ev
+}
+
+/// bundled aggregations of a message-like event (`unsigned.m.relations`)
+fn bundled_relations(r: &mut Rng) -> Value {
+    let mut rel = Map::new();
+    if r.chance(1, 2) {
+        rel.insert(
+            "m.thread".to_owned(),
+            json!({
+                "latest_event": {
+                    "type": "m.room.message", "event_id": EVENTS[1], "sender": USERS[1], "origin_server_ts": 1632491098485i64,
+                    "content": {"msgtype": "m.text", "body": "reply in thread",
+                        "m.relates_to": {"rel_type": "m.thread", "event_id": EVENTS[0]}},
+                },
+                "count": int(r, 0, 1000),
+                "current_user_participated": r.chance(1, 2),
+            }),
+        );
+    }
+    if r.chance(1, 2) {
+        rel.insert("m.reference".to_owned(), json!({"chunk": [{"event_id": EVENTS[0]}, {"event_id": EVENTS[2]}]}));
+    }
+    if r.chance(1, 3) {
+        rel.insert("org.example.unknown_relation".to_owned(), json!({"x": [1, 2]}));
+    }
+    Value::Object(rel)
+}
+
+fn unsigned_original(r: &mut Rng, state_prev: Option<&Value>) -> Option<Value> {
+    if state_prev.is_none() && r.chance(1, 6) {
+        return Some(json!({"age": 1, "m.relations": bundled_relations(r)}));
+    }
+    match r.below(5) {
+        0 => None,
+        1 => Some(json!({})),
+        2 => Some(json!({"age": 1234})),
+        3 => Some(json!({"age": -5, "transaction_id": "m1234.5", "x.unknown": 1})),
+        _ => {
+            let mut u = json!({"age": 99});
+            if let Some(pc) = state_prev {
+                u["prev_content"] = pc.clone();
+            }
+            // an explicit null is the same as no redacted_because
+            if r.chance(1, 3) {
+                u["redacted_because"] = json!(null);
+            }
+            Some(u)
+        }
+    }
+}
+
+/// Full-format room event from a generated content; `redact_as`: apply the redaction algorithm of that room version.
+fn room_event(r: &mut Rng, g: &Gen, redact_as: Option<&RedactionRules>, content_override: Option<Value>) -> Value {
+    let mut content = content_override.unwrap_or_else(|| Value::Object(g.b.full.clone()));
+    let mut ev = Map::new();
+    ev.insert("type".to_owned(), json!(g.ty));
+    ev.insert("event_id".to_owned(), p(r, EVENTS));
+    ev.insert("sender".to_owned(), p(r, USERS));
+    ev.insert("origin_server_ts".to_owned(), int(r, 0, MAXI));
+    ev.insert("room_id".to_owned(), p(r, ROOMS));
+    if let Some(sk) = &g.state_key {
+        ev.insert("state_key".to_owned(), json!(sk));
+    }
+    if g.ty == "m.room.redaction" && redact_as.is_none() {
+        // v1-v10: top-level `redacts`; v11: inside content (the generator puts it in content; mirror it sometimes)
+        match r.below(3) {
+            0 => {
+                let red = content.as_object_mut().and_then(|c| c.remove("redacts"));
+                if let Some(x) = red {
+                    ev.insert("redacts".to_owned(), x);
+                }
+            }
+            1 => {
+                ev.insert("redacts".to_owned(), content["redacts"].clone());
+            }
+            _ => {}
+        }
+    }
+    match redact_as {
+        Some(rules) => {
+            if let Some(CanonicalJsonValue::Object(mut c)) = to_canonical(&content) {
+                let _ = redact_content_in_place(&mut c, rules, g.ty.as_str());
+                content = canonical_to_value(&CanonicalJsonValue::Object(c));
+            }
+            let mut u = json!({"redacted_because": redaction_event(r, false)});
+            if r.chance(1, 3) {
+                u["age"] = json!(77);
+            }
+            ev.insert("unsigned".to_owned(), u);
+        }
+        None => {
+            let prev = if g.state_key.is_some() && r.chance(1, 2) { Some(content.clone()) } else { None };
+            if let Some(u) = unsigned_original(r, prev.as_ref()) {
+                ev.insert("unsigned".to_owned(), u);
+            }
+        }
+    }
+    ev.insert("content".to_owned(), content);
+    if r.chance(1, 3) {
+        // members of the federation format / unknown members: must be ignored
+        ev.insert("depth".to_owned(), json!(12));
+        ev.insert("origin".to_owned(), json!("example.org"));
+        ev.insert("hashes".to_owned(), json!({"sha256": B64[0]}));
+        ev.insert("prev_events".to_owned(), json!([EVENTS[0]]));
+        ev.insert("x.unknown.top".to_owned(), json!({"a": 1}));
+    }
+    Value::Object(ev)
+}
+
+fn without(ev: &Value, keys: &[&str]) -> Value {
+    let mut m = ev.as_object().unwrap().clone();
+    for k in keys {
+        m.remove(*k);
+    }
+    Value::Object(m)
+}
+
+fn only(ev: &Value, keys: &[&str]) -> Value {
+    let m = ev.as_object().unwrap();
+    Value::Object(keys.iter().filter_map(|k| m.get(*k).map(|v| ((*k).to_owned(), v.clone()))).collect())
+}
+
+fn case_event(target: &str, ev: &Value, shaped: bool, perm: u64) -> Option<Sx> {
+    let c = to_canonical(ev)?;
+    Some(Sx::L(vec![Sx::N(0), Sx::s(target), json_to_sx(&c), Sx::b(shaped), Sx::N(perm as i128)]))
+}
+
+fn emit_event(em: &mut Emitter, tag: &str, target: &str, ev: &Value, shaped: bool, perm: u64) {
+    if let Some(case) = case_event(target, ev, shaped, perm) {
+        let (t, e) = (target.to_owned(), ev.clone());
+        em.emit(tag, case, guarded(move || run_event(&t, &e, perm)));
+    }
+}
+
+fn emit_content(em: &mut Emitter, tag: &str, kind: &str, g: &Gen, perm: u64) {
+    let (Some(full), Some(hard)) = (to_canonical(&Value::Object(g.b.full.clone())), to_canonical(&Value::Object(g.b.hard.clone()))) else { return };
+    let case = Sx::L(vec![Sx::N(1), Sx::s(kind), Sx::s(&g.ty), json_to_sx(&full), json_to_sx(&hard), Sx::N(perm as i128)]);
+    let (k, ty, f, h) = (kind.to_owned(), g.ty.clone(), Value::Object(g.b.full.clone()), Value::Object(g.b.hard.clone()));
+    em.emit(tag, case, guarded(move || run_content(&k, &ty, &f, &h, perm)));
+}
+
+/// envelope mutations the model can judge: drop / retype one member
+fn malformed(r: &mut Rng, ev: &Value) -> Value {
+    let mut m = ev.as_object().unwrap().clone();
+    // members of the event only (a member unknown to the format is ignored anyway); the `unsigned` of a
+    // redacted event is left alone (without it the redacted content would be read as an original one)
+    let redacted = m.get("unsigned").and_then(|u| u.get("redacted_because")).is_some_and(|x| !x.is_null());
+    let keys: Vec<&str> = ["type", "content", "event_id", "sender", "origin_server_ts", "room_id", "state_key", "unsigned"]
+        .into_iter()
+        .filter(|k| m.contains_key(*k) && !(redacted && *k == "unsigned"))
+        .collect();
+    let k = *r.pick(&keys);
+    let original = m.get(k).cloned();
+    match if k == "content" { 0 } else { r.below(6) } {
+        0 => {
+            m.remove(k);
+        }
+        1 => {
+            m.insert(k.to_owned(), json!(null));
+        }
+        2 => {
+            m.insert(k.to_owned(), json!(5));
+        }
+        3 => {
+            m.insert(k.to_owned(), json!(true));
+        }
+        4 => {
+            if k == "origin_server_ts" {
+                m.insert(k.to_owned(), json!(*r.pick(&[-1i64, MAXI + 1, i64::MAX])));
+            } else if k == "unsigned" {
+                m.insert(k.to_owned(), json!({"redacted_because": *r.pick(&[json!(true), json!(5), json!({}), json!({"event_id": EVENTS[0]}), json!("x")])}));
+            } else {
+                m.insert(k.to_owned(), json!({"x": 1}));
+            }
+        }
+        _ => {
+            m.insert(k.to_owned(), json!("a string"));
+        }
+    }
+    // a typed state key (empty / user id / ..) stays what it was when it stays a string
+    if k == "state_key" && m.get(k).is_some_and(|v| v.is_string()) {
+        if let Some(o) = original.filter(|o| o.is_string()) {
+            m.insert(k.to_owned(), o);
+        }
+    }
+    // keep id-typed members valid identifiers when they stay strings (identifier grammar is C10's)
+    for (k, good) in [("event_id", EVENTS[0]), ("sender", USERS[0]), ("room_id", ROOMS[0])] {
+        if m.get(k).is_some_and(|v| v.is_string()) {
+            m.insert(k.to_owned(), json!(good));
+        }
+    }
+    Value::Object(m)
+}
+
+const TIMELINE_TARGETS: &[&str] = &["AnyTimelineEvent", "AnySyncTimelineEvent"];
+
+pub fn run(tier: &str, seed: u64, em: &mut Emitter) {
+    let mut r = Rng::new(seed ^ 0xC18);
+    let n = if tier == "thorough" { 20000 } else { 1500 };
+
+    // --- systematic: every declared type string of every kind (and near-misses) with a minimal envelope,
+    //     into every enum: dispatch only (content of a known type is `{}` => may be rejected, so `shaped` = 0
+    //     and the outcome is compared through the model only when the implementation accepts... the model
+    //     predicts acceptance from the envelope alone, so only unknown types are emitted here)
+    for _ in 0..n / 3 {
+        let (ty, content) = gen_unknown(&mut r);
+        let g = Gen { ty, b: B { full: content.as_object().cloned().unwrap_or_default(), hard: Map::new() }, state_key: if r.chance(1, 2) { Some("".to_owned()) } else { None } };
+        let redact = if r.chance(1, 4) { Some(&RULES[r.below(RULES.len())].1) } else { None };
+        let full = room_event(&mut r, &g, redact, None);
+        let perm = r.next();
+        let state = g.state_key.is_some();
+        for t in TIMELINE_TARGETS {
+            let ev = if *t == "AnySyncTimelineEvent" { without(&full, &["room_id"]) } else { full.clone() };
+            emit_event(em, "systematic-unknown-type", t, &ev, true, perm);
+        }
+        if state {
+            emit_event(em, "systematic-unknown-type", "AnyStateEvent", &full, true, perm);
+            emit_event(em, "systematic-unknown-type", "AnySyncStateEvent", &without(&full, &["room_id"]), true, perm);
+            emit_event(em, "systematic-unknown-type", "AnyStrippedStateEvent", &only(&full, &["type", "content", "sender", "state_key"]), true, perm);
+            emit_event(em, "systematic-unknown-type", "AnyInitialStateEvent", &only(&full, &["type", "content", "state_key"]), true, perm);
+        } else {
+            emit_event(em, "systematic-unknown-type", "AnyMessageLikeEvent", &full, true, perm);
+            emit_event(em, "systematic-unknown-type", "AnySyncMessageLikeEvent", &without(&full, &["room_id"]), true, perm);
+            emit_event(em, "systematic-unknown-type", "AnyToDeviceEvent", &only(&full, &["type", "content", "sender"]), true, perm);
+            emit_event(em, "systematic-unknown-type", "AnyEphemeralRoomEvent", &only(&full, &["type", "content", "room_id"]), true, perm);
+            emit_event(em, "systematic-unknown-type", "AnySyncEphemeralRoomEvent", &only(&full, &["type", "content"]), true, perm);
+            emit_event(em, "systematic-unknown-type", "AnyGlobalAccountDataEvent", &only(&full, &["type", "content"]), true, perm);
+            emit_event(em, "systematic-unknown-type", "AnyRoomAccountDataEvent", &only(&full, &["type", "content"]), true, perm);
+        }
+    }
+
+    // --- random structured: events from the schemas
+    for i in 0..n {
+        let perm = r.next();
+        // state / message-like room events
+        let g = if i % 2 == 0 { gen_state(&mut r) } else { gen_message_like(&mut r) };
+        let kind = if g.state_key.is_some() { "State" } else { "MessageLike" };
+        emit_content(em, "content-roundtrip", kind, &g, perm);
+        let redact = if r.chance(1, 3) { Some(&RULES[r.below(RULES.len())].1) } else { None };
+        let full = room_event(&mut r, &g, redact, None);
+        let sync = without(&full, &["room_id"]);
+        let tag = if redact.is_some() { "schema-redacted" } else { "schema-original" };
+        emit_event(em, tag, "AnyTimelineEvent", &full, true, perm);
+        emit_event(em, tag, "AnySyncTimelineEvent", &sync, true, perm);
+        if g.state_key.is_some() {
+            emit_event(em, tag, "AnyStateEvent", &full, true, perm);
+            emit_event(em, tag, "AnySyncStateEvent", &sync, true, perm);
+            if redact.is_none() {
+                emit_event(em, "schema-stripped", "AnyStrippedStateEvent", &only(&full, &["type", "content", "sender", "state_key"]), true, perm);
+                emit_event(em, "schema-initial", "AnyInitialStateEvent", &only(&full, &["type", "content", "state_key"]), true, perm);
+            } else {
+                // stripped state may carry redacted content too
+                emit_event(em, "schema-stripped", "AnyStrippedStateEvent", &only(&full, &["type", "content", "sender", "state_key"]), true, perm);
+            }
+        } else {
+            emit_event(em, tag, "AnyMessageLikeEvent", &full, true, perm);
+            emit_event(em, tag, "AnySyncMessageLikeEvent", &sync, true, perm);
+        }
+        // malformed envelopes (the model predicts the rejection)
+        if i % 3 == 0 {
+            let bad = malformed(&mut r, &full);
+            for t in ["AnyTimelineEvent", if g.state_key.is_some() { "AnyStateEvent" } else { "AnyMessageLikeEvent" }] {
+                emit_event(em, "malformed-envelope", t, &bad, false, perm);
+            }
+            let bad = malformed(&mut r, &sync);
+            emit_event(em, "malformed-envelope", "AnySyncTimelineEvent", &bad, false, perm);
+        }
+        // the other kinds
+        if i % 4 == 0 {
+            let g = gen_to_device(&mut r);
+            emit_content(em, "content-roundtrip", "ToDevice", &g, perm);
+            let ev = json!({"type": g.ty, "sender": *r.pick(USERS), "content": Value::Object(g.b.full.clone())});
+            emit_event(em, "schema-to-device", "AnyToDeviceEvent", &ev, true, perm);
+            let g = gen_ephemeral(&mut r);
+            emit_content(em, "content-roundtrip", "EphemeralRoom", &g, perm);
+            let ev = json!({"type": g.ty, "room_id": *r.pick(ROOMS), "content": Value::Object(g.b.full.clone())});
+            emit_event(em, "schema-ephemeral", "AnyEphemeralRoomEvent", &ev, true, perm);
+            emit_event(em, "schema-ephemeral", "AnySyncEphemeralRoomEvent", &without(&ev, &["room_id"]), true, perm);
+            let g = gen_global_account(&mut r);
+            emit_content(em, "content-roundtrip", "GlobalAccountData", &g, perm);
+            let ev = json!({"type": g.ty, "content": Value::Object(g.b.full.clone())});
+            emit_event(em, "schema-account-data", "AnyGlobalAccountDataEvent", &ev, true, perm);
+            let g = gen_room_account(&mut r);
+            emit_content(em, "content-roundtrip", "RoomAccountData", &g, perm);
+            let ev = json!({"type": g.ty, "content": Value::Object(g.b.full.clone())});
+            emit_event(em, "schema-account-data", "AnyRoomAccountDataEvent", &ev, true, perm);
+        }
+        // Raw: the event text with insignificant whitespace, escapes and duplicate members
+        if i % 5 == 0 {
+            let mut text = text_of(&full, perm);
+            match r.below(5) {
+                0 => text = format!("  {text}\n"),
+                1 => text = spaced(&text),
+                2 => text = text.replacen('{', "{\"type\":\"first.duplicate\",", 1),
+                3 => text = text.replace("\"sender\"", "\"\\u0073ender\""),
+                _ => {}
+            }
+            let field = *r.pick(&["type", "content", "sender", "missing", "unsigned", "x.unknown.top", ""]);
+            let (t, f) = (text.clone(), field.to_owned());
+            em.emit("raw", Sx::L(vec![Sx::N(2), Sx::s(&text), Sx::s(field)]), guarded(move || run_raw(&t, &f)));
+        }
+        // robustness: ill-typed content / truncated text: only a panic counts
+        if i % 5 == 1 {
+            let mut bad = full.clone();
+            bad["content"] = crate::jgen::gen_json(&mut r, 2).into_value();
+            let text = text_of(&bad, perm);
+            let cut = if r.chance(1, 3) {
+                let mut n = text.len() - 1 - r.below(text.len().min(8));
+                while !text.is_char_boundary(n) {
+                    n -= 1;
+                }
+                text[..n].to_owned()
+            } else {
+                text
+            };
+            {
+                for t in ["AnyTimelineEvent", "AnySyncStateEvent", "AnyToDeviceEvent"] {
+                    let (tt, c) = (t.to_owned(), cut.clone());
+                    em.emit("robustness", Sx::L(vec![Sx::N(3), Sx::s(t), Sx::s(&cut)]), guarded(move || run_robust(&tt, &c)));
+                }
+            }
+        }
+    }
+    // a few non-object Raw texts
+    for text in ["null", "5", "\"str\"", "[1,2]", " {} ", "{\"a\":1,\"a\":2}", "{\"a\":{\"b\":[ 1 , 2 ]}}"] {
+        for field in ["a", "b"] {
+            em.emit("raw", Sx::L(vec![Sx::N(2), Sx::s(text), Sx::s(field)]), guarded(move || run_raw(text, field)));
+        }
+    }
+}
+
+trait IntoValue {
+    fn into_value(self) -> Value;
+}
+impl IntoValue for CanonicalJsonValue {
+    fn into_value(self) -> Value {
+        canonical_to_value(&self)
+    }
+}
+
+pub fn replay(case: &Sx) -> Option<Sx> {
+    let l = case.as_list()?;
+    match (l.first()?.as_int()?, &l[1..]) {
+        (0, [target, ev, _shaped, perm]) => {
+            let (target, ev, perm) = (target.as_string()?, canonical_to_value(&sx_to_json(ev)?), perm.as_int()? as u64);
+            Some(guarded(move || run_event(&target, &ev, perm)))
+        }
+        (1, [kind, ty, full, hard, perm]) => {
+            let (kind, ty) = (kind.as_string()?, ty.as_string()?);
+            let (full, hard, perm) = (canonical_to_value(&sx_to_json(full)?), canonical_to_value(&sx_to_json(hard)?), perm.as_int()? as u64);
+            Some(guarded(move || run_content(&kind, &ty, &full, &hard, perm)))
+        }
+        (2, [text, field]) => {
+            let (text, field) = (text.as_string()?, field.as_string()?);
+            Some(guarded(move || run_raw(&text, &field)))
+        }
+        (3, [target, text]) => {
+            let (target, text) = (target.as_string()?, text.as_string()?);
+            Some(guarded(move || run_robust(&target, &text)))
+        }
+        _ => None,
+    }
 }
 
 pub fn dump(_dir: &str) {}
